@@ -173,6 +173,11 @@ def run_case(case):
                     rd.feed(client_message_xml("newTextVector", "A", k=k).encode("latin1"))
             elif step[0] == "peer-write-error":
                 conns[step[1]]["writer"].fail_next = True
+            elif step[0] == "write-reset":
+                # the peer reset its receiving side: the transport is marked closing, reads still block; the connection
+                # has not ended yet as far as the server can tell, and nobody else may be affected
+                if hasattr(conns[step[1]]["writer"], "is_closing"):
+                    conns[step[1]]["writer"].closing = True
             await idle()
             # observations
             rev = {id(c["handler"]): i for i, c in conns.items() if c["handler"] is not None}
@@ -254,6 +259,11 @@ def run_impl(case, outcome):
                 continue
             qs.append(Query("router deliveries %d %s" % (idx, "%d %s" % (idx + 1, " ".join(ops[:idx + 1]))), " ".join(o["recipients"]), "corr",
                             "deliveries of step %d %r" % (n, st)))
+            if st[0] == "dev":
+                # oracle (C18 "every other connection keeps receiving all device traffic", C05): who must get this message,
+                # computed by the specification from the history of registrations, endings and enableBLOBs alone
+                qs.append(Query("spec deliveries %d %s" % (idx, "%d %s" % (idx + 1, " ".join(ops[:idx + 1]))), " ".join(o["recipients"]), "oracle",
+                                "device traffic of step %d %r did not reach exactly the connections that are open and entitled to it" % (n, st)))
     # oracle (C18): after a connection ended it is in neither clients nor blob_routing, its writer is closed, its handler task is done,
     # and it receives nothing afterwards; evaluated in Lean from the observations
     ended_at = {}
@@ -333,6 +343,14 @@ def gen_cases(rng, tier):
         for victim in range(n):
             pos = rng.randrange(n, len(base))
             yield {"op": "conn", "script": base[:pos] + [["peer-write-error", victim]] + base[pos:] + [["dev", 0, "setTextVector", "A"], ["dev", 1, "setTextVector", "B"]]}
+    # the peer resets its receiving side (transport closing, reads still pending), device traffic follows, then the connection ends
+    for n in (2, 3):
+        base = base_script(n)
+        for victim in range(n):
+            for pos in ([len(base) - 3, len(base)] if not thorough else range(2 * n + n, len(base) + 1)):
+                script = ([list(x) for x in base[:pos]] + [["write-reset", victim], ["dev", 0, "setTextVector", "A"], ["dev", 1, "defTextVector", "B"], ["dev", 0, "setBLOBVector", "A"],
+                                                         ["fault", victim, "eof"], ["dev", 0, "setTextVector", "A"], ["dev", 0, "setBLOBVector", "A"]])
+                yield {"op": "conn", "script": script}
     # hostile-but-well-formed client messages and byte-level oddities at every position (C12 at the connection level)
     hostile = ['<newTextVector device="A" name="NOPE"><oneText name="e">v</oneText></newTextVector>',
                '<newSwitchVector device="A" name="P"><oneSwitch name="e">Maybe</oneSwitch></newSwitchVector>',
